@@ -16,6 +16,7 @@ import (
 	"errors"
 	"fmt"
 	"math/rand"
+	"runtime"
 	"strings"
 	"sync"
 	"time"
@@ -62,6 +63,7 @@ type c10Scenario struct {
 	Notes      []string       `json:"notes,omitempty"`
 	DupPanic   string         `json:"dup_panic,omitempty"`
 	DurMs      int64          `json:"dur_ms"`
+	Leftover   int            `json:"leftover_goroutines"`
 }
 
 // ---- scripted subscriber: one per handler
@@ -190,7 +192,7 @@ const (
 func c10Run(rt *hookrt.Runtime, sc *c10Scenario, seed int64) {
 	rt.Reset()
 	rt.Filter(func(point string, keys []string) bool {
-		return strings.HasPrefix(point, "router.life.") || strings.HasPrefix(point, "api.") || strings.HasPrefix(point, "router.handler.handleclose.")
+		return strings.HasPrefix(point, "router.life.") || strings.HasPrefix(point, "api.") || strings.HasPrefix(point, "router.handler.handleclose.") || point == "router.handler.received"
 	})
 	if !sc.Forced || seed%2 == 0 {
 		rt.Perturb("*", 0.2)
@@ -201,6 +203,9 @@ func c10Run(rt *hookrt.Runtime, sc *c10Scenario, seed int64) {
 		rules = append(rules, rt.AddRule(&hookrt.ParkRule{Point: p.Point, Keys: p.Keys, Nth: p.Nth, Until: p.Until, UntilKeys: p.UKeys,
 			Timeout: time.Duration(p.Timeout) * time.Millisecond}))
 	}
+	// goroutines of an earlier scenario's router must not stamp nameless points into this log:
+	// every scenario ends its subscriptions and waits until the goroutine count is back at its baseline
+	baseline := runtime.NumGoroutine()
 	router, err := message.NewRouter(message.RouterConfig{CloseTimeout: 1 * time.Second}, watermill.NopLogger{})
 	if err != nil {
 		sc.Notes = append(sc.Notes, "NewRouter: "+err.Error())
@@ -476,6 +481,9 @@ func c10Run(rt *hookrt.Runtime, sc *c10Scenario, seed int64) {
 	// ---- clean up (no verdicts from here on)
 	rt.ReleaseAll()
 	cancel()
+	for _, s := range subs {
+		s.end("cleanup")
+	}
 	closed := make(chan struct{})
 	go func() { router.Close(); close(closed) }()
 	select {
@@ -497,7 +505,10 @@ func c10Run(rt *hookrt.Runtime, sc *c10Scenario, seed int64) {
 			}
 		}
 	}
-	time.Sleep(2 * time.Millisecond)
+	for deadline := time.Now().Add(2 * time.Second); runtime.NumGoroutine() > baseline && time.Now().Before(deadline); {
+		time.Sleep(500 * time.Microsecond)
+	}
+	sc.Leftover = runtime.NumGoroutine() - baseline
 	sc.Events = rt.Log()
 	for _, s := range subs {
 		s.mu.Lock()
@@ -597,7 +608,7 @@ func c10Forced() []*c10Scenario {
 		op("close"), op("wait_run")})
 	// subscription ended by the environment; subscriber ignoring its context + Close
 	add("subscription-ends", []c10Op{opAdd(0, false), opAdd(1, true), op("run"), op("wait_running"), opH("subend", 0), opH("wait_stopped", 0), opH("probe", 1), opH("subend", 1), opH("wait_stopped", 1), op("wait_run")})
-	add("close-with-ctx-ignoring-subscriber", []c10Op{opAdd(0, false), op("run"), op("wait_running"), opH("stop", 0), opH("probe", 0), {K: "close", Async: true}, op("wait_run"), opH("stopped_get", 0)})
+	add("close-with-ctx-ignoring-subscriber", []c10Op{opAdd(0, false), op("run"), op("wait_running"), opH("probe", 0), opH("stop", 0), {K: "close", Async: true}, op("wait_run"), opH("stopped_get", 0)})
 	// foreign context for RunHandlers
 	add("runhandlers-foreign-context", []c10Op{opAdd(0, true), op("run"), op("wait_running"), opAdd(1, true), opRH(1, true, false), opH("started", 1), op("cancel"), opH("wait_stopped", 0), opH("probe", 1),
 		opH("stop", 1), opH("wait_stopped", 1), op("wait_run")})
